@@ -855,11 +855,21 @@ class ChainContextSubstBuilder(ChainContextualBuilder):
             for sub in rule.lookups:
                 if not isinstance(sub, LigatureSubstBuilder):
                     continue
-                if all(
-                    sub.ligatures.get(seq, replacement) == replacement
-                    for seq in itertools.product(*glyphs)
+                seqs = list(itertools.product(*glyphs))
+                if not all(
+                    sub.ligatures.get(seq, replacement) == replacement for seq in seqs
                 ):
-                    res = sub
+                    continue
+                # A sequence that is a proper prefix (or extension) of one already in
+                # the lookup would be shadowed by (or would shadow) it when the
+                # lookup is invoked from a different context.
+                if any(
+                    key != seq and key[: len(seq)] == seq[: len(key)]
+                    for seq in seqs
+                    for key in sub.ligatures
+                ):
+                    continue
+                res = sub
         return res
 
 
